@@ -1405,14 +1405,26 @@ impl ValidationCache {
         key: &ValidationCacheKey,
         context: &RrsetVerificationContext<'_>,
     ) -> Option<Result<RrsetProof, ProofError>> {
-        let (ttl, cached) = self.inner.lock().get_mut(key)?.clone();
+        let (ttl, mut cached) = self.inner.lock().get_mut(key)?.clone();
 
-        if cache_now() < ttl {
+        let now = cache_now();
+        if now < ttl {
             debug!(
                 name = ?context.key.name,
                 record_type = ?context.key.record_type,
                 "returning cached DNSSEC validation",
             );
+            // The authenticated TTL was computed when the entry was inserted. The entry does not
+            // outlive it (see `insert()`), so what is left of the entry's lifetime bounds what is
+            // left of the authenticated TTL.
+            if let Ok(RrsetProof {
+                adjusted_ttl: Some(adjusted_ttl),
+                ..
+            }) = &mut cached
+            {
+                let remaining = ttl.saturating_duration_since(now).as_secs();
+                *adjusted_ttl = (*adjusted_ttl).min(u32::try_from(remaining).unwrap_or(u32::MAX));
+            }
             Some(cached)
         } else {
             debug!(
@@ -1454,13 +1466,20 @@ impl ValidationCache {
             return;
         };
 
-        self.inner.lock().insert(
-            key,
-            (
-                cache_now() + Duration::from_secs(first_record.ttl.into()).clamp(min, max),
-                proof.clone(),
-            ),
-        );
+        let mut ttl = Duration::from_secs(first_record.ttl.into()).clamp(min, max);
+        // A positive verdict must not be served for longer than the authenticated TTL, which is
+        // bounded by the remaining lifetime of the signature (RFC 4035 section 5.3.3).
+        if let Ok(RrsetProof {
+            adjusted_ttl: Some(adjusted_ttl),
+            ..
+        }) = &proof
+        {
+            ttl = ttl.min(Duration::from_secs((*adjusted_ttl).into()));
+        }
+
+        self.inner
+            .lock()
+            .insert(key, (cache_now() + ttl, proof.clone()));
     }
 }
 
